@@ -41,6 +41,8 @@ def full_load(case, r):
         nleaves = rm.n_leaves(m)
         levels_with_leaves = sum(1 for lv in m.levels if (~lv.refined).any())
         r.label(f"ndim_{case['ndim']}")
+        if case.get("deep"):
+            r.label(f"deep_tree_levelmax_{case['levelmax']}")
         for lab, cond in [("multi_cpu", case["ncpu"] > 1), ("ghosts", m.n_ghost_octs > 0),
                           ("boundaries", case["nboundary"] > 0), ("noutput_gt1", case["noutput"] > 1),
                           ("key16", case["keysize"] == 16), ("grav", case["grav"]), ("rt", bool(case["rt_vars"])),
@@ -111,9 +113,27 @@ def latest_case_st(draw):
     return {"base": base, "numbers": draw(st.lists(st.integers(1, 120), min_size=2, max_size=3, unique=True))}
 
 
+@__import__("hypothesis").strategies.composite
+def full_case_st(draw):
+    from hypothesis import strategies as st
+    case = draw(rc.output_cases(with_part=False, with_sink=False))
+    if case["ndim"] >= 2 and draw(st.integers(0, 9)) == 0:
+        # a very deep tree (one chain of refinements): Hilbert keys beyond the fifteen digits the info file prints
+        case["levelmin"] = draw(st.sampled_from([2, 3]))
+        case["levelmax"] = draw(st.sampled_from([17, 20, 21, 21] if case["ndim"] == 3 else [24, 24, 25]))
+        case["refine_p"] = [0.0]
+        case["deep_toward"] = [draw(st.sampled_from([0.25, 0.5, 0.75])) for _ in range(3)]
+        case["ncpu"] = max(case["ncpu"], 3)
+        case["ordering"] = "hilbert"
+        case["key_mode"] = draw(st.sampled_from(["uniform", "random", "cube"]))
+        case["key_format"] = "e23.15"
+        case["deep"] = True
+    return case
+
+
 def subs(ctx):
     return [Sub("latest_output", latest_output, strategy=latest_case_st(), quick=15, thorough=60),
-            Sub("full_load", full_load, strategy=rc.output_cases(with_part=False, with_sink=False),
+            Sub("full_load", full_load, strategy=full_case_st(),
                 quick=150, thorough=700,
                 required={"multi_cpu": 0.5, "ghosts": 0.3, "boundaries": 0.2, "ndim_1": 0.08, "ndim_2": 0.15,
                           "ndim_3": 0.15, "multi_level": 0.4, "coarse_grid_anisotropic": 0.06})]
